@@ -1,7 +1,6 @@
 (* Tie theorems, sealed replies (C16): the regenerated syntax of RpcClient._process_response and AuthenticationProvider.unwrap
-   (gen/F_client.v), run in the world Flow/World_client.v, computes Model/Seal.v's unseal followed by PDU.unpack
-   (Model/RpcDispatch.v) and the class checks; that composition is Seal.process_response whenever the reply is a RESPONSE PDU
-   or a PDU of another type that decodes or fails with ValueError (Seal.v refuses other types without decoding them: its comment). *)
+   (gen/F_client.v), run in the world Flow/World_client.v, computes Model/Seal.v's process_response (unseal, PDU.unpack of every
+   registered type, the class checks, the rejection of an unsealed reply) -- the function the C16 theorems are about. *)
 From V Require Import Prelude.Base Prelude.PyInt Prelude.PySlice Prelude.PyAst Prelude.PyWorld gen.F_client gen.K_client gen.C_client gen.C_rpc.
 From V Require Import Model.Pdu Model.Request Model.Bind Model.Verification Model.RpcDispatch.
 From V Require Import Model.Handshake Model.Framing Model.Seal Model.Recv Model.Conversation Model.Types Model.Gkdi.
@@ -21,8 +20,8 @@ Arguments k_sec_trailer_offset : simpl never.
 Arguments k_unwrap_trailer_len : simpl never.
 
 Section Seal.
-Context (wrap : wrap_fn) (unwrap : unwrap_fn) (pfuel : nat) (sch : list Z).
-Notation W := (WC wrap unwrap pfuel sch).
+Context (wrap : wrap_fn) (unwrap : unwrap_fn) (sch : list Z).
+Notation W := (WC wrap unwrap sch).
 
 (* AuthenticationProvider.unwrap(self, header, body, trailer, signature, sign_header): spnego's unwrap_iov is the model's unwrap_fn *)
 Lemma flow_auth_unwrap fuel ap h b t sg (sign : bool) :
@@ -34,16 +33,6 @@ Proof.
     repeat (first [rewrite I1 | rewrite len_cons_nz | rewrite len_nil_z]; cbn); reflexivity.
 Qed.
 
-
-(* what the source does: unseal, PDU.unpack (all registered types are decoded), then the class checks *)
-Definition process_response_src (auth : bool) (offs : option (Z * Z)) (sign : bool) (hdr : pdu_header) (resp : bytes) : res pdu :=
-  let* clear := unseal unwrap auth offs sign hdr resp in
-  let* (p, _) := pdu_unpack pfuel clear in
-  if pdu_type p =? c_PT_BIND_NAK then Raise ValueError
-  else if pdu_type p =? c_PT_FAULT then Raise ValueError
-  else if negb (pdu_type p =? c_PT_RESPONSE) then Raise ValueError
-  else if k_reject_unsealed auth (is_some offs) (h_auth_len hdr) then Raise ValueError
-  else Ok p.
 
 Lemma slice_to_firstn {A} (b : list A) a : 0 <= a <= len b -> slice None (Some a) b = firstn (Z.to_nat a) b.
 Proof.
@@ -70,6 +59,14 @@ Qed.
 
 Definition pr_tail : list pstmt := skipn 1 (pf_body k_flow_process_response).
 
+Definition class_checks (auth offs : bool) (hdr : pdu_header) (p : pdu) : res response :=
+  match p with
+  | PBindNak _ => Raise ValueError
+  | PFault _ => Raise ValueError
+  | PResponse r => if k_reject_unsealed auth offs (h_auth_len hdr) then Raise ValueError else Ok r
+  | _ => Raise ValueError
+  end.
+
 Lemma pr_tail_ok fuel c clear hdr offs env :
   lookup "response" env = Some (VB clear) ->
   lookup "self" env = Some (VO (OSelf c)) ->
@@ -77,36 +74,34 @@ Lemma pr_tail_ok fuel c clear hdr offs env :
   lookup "pdu_header" env = Some (VO (OHdr hdr)) ->
   lookup "resp_type" env = Some (VI c_PT_RESPONSE) ->
   lookup "BindNak" env = None -> lookup "Fault" env = None ->
-  exec_block W fuel pr_tail env =
-  (let* (p, _) := pdu_unpack pfuel clear in
-   if pdu_type p =? c_PT_BIND_NAK then Raise ValueError
-   else if pdu_type p =? c_PT_FAULT then Raise ValueError
-   else if negb (pdu_type p =? c_PT_RESPONSE) then Raise ValueError
-   else if k_reject_unsealed (is_some (cl_auth c)) (is_some offs) (h_auth_len hdr) then Raise ValueError
-   else Ok (Ret (VO (OPdu p)))).
+  (let* o := exec_block W fuel pr_tail env in match o with Ret v => Ok v | _ => Ok VN end) =
+  (let* r := (let* (p, _) := pdu_unpack (S (List.length clear)) clear in
+              class_checks (is_some (cl_auth c)) (is_some offs) hdr p) in
+   Ok (VO (OPdu (PResponse r)))).
 Proof.
   intros Hr Hs Ho Hh Ht Hn Hf.
   assert (L2 : forall (a0 a1 : pv obj), (len [a0; a1] =? 0) = false) by reflexivity.
   unfold pr_tail. cbn [skipn pf_body k_flow_process_response].
-  cbn. rewrite Hr. cbn. destruct (pdu_unpack pfuel clear) as [[p tk]|e]; cbn; [|reflexivity].
+  cbn. rewrite Hr. cbn. destruct (pdu_unpack (S (List.length clear)) clear) as [[p tk]|e]; cbn; [|reflexivity].
   unfold test. cbn. rewrite Hn. cbn. rewrite truthy_vb.
-  destruct (pdu_type p =? c_PT_BIND_NAK) eqn:E1; cbn; [reflexivity|].
+  destruct (pdu_type p =? c_PT_BIND_NAK) eqn:E1; cbn; [destruct p; try discriminate; reflexivity|].
   rewrite Hf. cbn. rewrite truthy_vb.
-  destruct (pdu_type p =? c_PT_FAULT) eqn:E2; cbn; [reflexivity|].
+  destruct (pdu_type p =? c_PT_FAULT) eqn:E2; cbn; [destruct p; try discriminate; reflexivity|].
   rewrite Ht. cbn. rewrite truthy_vb.
-  destruct (pdu_type p =? c_PT_RESPONSE) eqn:E3; cbn; [|reflexivity].
+  destruct (pdu_type p =? c_PT_RESPONSE) eqn:E3; cbn; [|destruct p; try discriminate; reflexivity].
+  destruct p; try discriminate. cbn [class_checks].
   rewrite Hs. cbn. unfold k_reject_unsealed.
   destruct (cl_auth c) as [pv|]; cbn.
   - rewrite Ho. destruct offs as [[o0 o1]|]; cbn; rewrite ?L2; cbn.
-    + rewrite Hh. cbn. rewrite truthy_vb. destruct (h_auth_len hdr =? 0); cbn; reflexivity.
+    + rewrite Hh. cbn. rewrite truthy_vb. destruct (h_auth_len hdr =? 0); cbn; rewrite ?Hr; reflexivity.
     + reflexivity.
   - reflexivity.
 Qed.
 
-(* _process_response(self, response, pdu_header, Response, encrypt_offsets) *)
+(* _process_response(self, response, pdu_header, Response, encrypt_offsets) IS Seal.process_response *)
 Lemma flow_process_response fuel c resp hdr offs :
   run W fuel k_flow_process_response [VO (OSelf c); VB resp; VO (OHdr hdr); VI c_PT_RESPONSE; offv offs]
-  = (let* p := process_response_src (is_some (cl_auth c)) offs (cl_sign c) hdr resp in Ok (VO (OPdu p))).
+  = (let* r := process_response unwrap (is_some (cl_auth c)) offs (cl_sign c) hdr resp in Ok (VO (OPdu (PResponse r)))).
 Proof.
   assert (I0 : forall (a0 a1 : pv obj), PySlice.index [a0; a1] 0 = Ok a0) by reflexivity.
   assert (L2 : forall (a0 a1 : pv obj), (len [a0; a1] =? 0) = false) by reflexivity.
@@ -115,77 +110,37 @@ Proof.
     lookup "encrypt_offsets" env = Some (offv offs) -> lookup "pdu_header" env = Some (VO (OHdr hdr)) ->
     lookup "resp_type" env = Some (VI c_PT_RESPONSE) -> lookup "BindNak" env = None -> lookup "Fault" env = None ->
     (let* o := exec_block W fuel pr_tail env in match o with Ret v => Ok v | _ => Ok VN end)
-    = (let* p := (let* (p, _) := pdu_unpack pfuel clear in
-                  if pdu_type p =? c_PT_BIND_NAK then Raise ValueError
-                  else if pdu_type p =? c_PT_FAULT then Raise ValueError
-                  else if negb (pdu_type p =? c_PT_RESPONSE) then Raise ValueError
-                  else if k_reject_unsealed (is_some (cl_auth c)) (is_some offs) (h_auth_len hdr) then Raise ValueError
-                  else Ok p) in Ok (VO (OPdu p)))).
-  { intros clear env H1 H2 H3 H4 H5 H6 H7. rewrite (pr_tail_ok fuel c clear hdr offs env H1 H2 H3 H4 H5 H6 H7).
-    destruct (pdu_unpack pfuel clear) as [[p tk]|e]; cbn; [|reflexivity].
-    destruct (pdu_type p =? c_PT_BIND_NAK); [reflexivity|]. destruct (pdu_type p =? c_PT_FAULT); [reflexivity|].
-    destruct (negb (pdu_type p =? c_PT_RESPONSE)); [reflexivity|]. destruct (k_reject_unsealed _ _ _); reflexivity. }
-  unfold process_response_src, unseal, unwrap_slices, k_unwrap_guard, k_sec_trailer_offset, k_unwrap_trailer_len.
+    = (let* r := (let* (p, _) := pdu_unpack (S (List.length clear)) clear in
+                  class_checks (is_some (cl_auth c)) (is_some offs) hdr p) in Ok (VO (OPdu (PResponse r))))).
+  { intros. apply pr_tail_ok; assumption. }
+  assert (Pm : forall clear, (let* (p, _) := pdu_unpack (S (List.length clear)) clear in
+                  class_checks (is_some (cl_auth c)) (is_some offs) hdr p)
+      = (let* (p, _ticks) := pdu_unpack (S (List.length clear)) clear in
+         match p with
+         | PBindNak _ => Raise ValueError
+         | PFault _ => Raise ValueError
+         | PResponse r =>
+           if k_reject_unsealed (is_some (cl_auth c)) (match offs with Some _ => true | None => false end) (h_auth_len hdr) then Raise ValueError
+           else Ok r
+         | _ => Raise ValueError
+         end)).
+  { intro clear. destruct (pdu_unpack _ clear) as [[p t]|e]; [|reflexivity]. destruct offs; destruct p; reflexivity. }
+  unfold process_response, unseal, unwrap_slices, k_unwrap_guard, k_sec_trailer_offset, k_unwrap_trailer_len.
   unfold run. cbn [bind_params pf_params pf_body k_flow_process_response].
   match goal with |- context [exec_block W fuel ?body ?env] => change body with (firstn 1 body ++ pr_tail) end.
   rewrite exec_block_app. cbn [firstn]. remember pr_tail as tl eqn:Etl.
   rewrite exec_block_cons, exec_if. unfold test.
   destruct (cl_auth c) as [pv|] eqn:Ea; destruct offs as [[o0 o1]|]; cbn; rewrite ?Ea; cbn; rewrite ?L2; cbn.
   - destruct (h_auth_len hdr =? 0) eqn:El; cbn.
-    + subst tl. rewrite (Tl resp) by reflexivity. rewrite ?Ea. reflexivity.
+    + subst tl. rewrite (Tl resp) by reflexivity. rewrite Pm, ?Ea. reflexivity.
     + repeat (first [rewrite I0 | rewrite Ea | rewrite truthy_vb]; cbn).
       destruct (unwrap _ _ _ _ _) as [dec|e]; cbn; [|reflexivity].
       repeat (first [rewrite I0 | rewrite Ea | rewrite truthy_vb]; cbn). rewrite setslice_assign.
       subst tl. rewrite (Tl (assign_slice resp o0 (h_frag_len hdr - (h_auth_len hdr + 8)) dec)) by reflexivity.
-      rewrite ?Ea. reflexivity.
-  - subst tl. rewrite (Tl resp) by reflexivity. rewrite ?Ea. reflexivity.
-  - subst tl. rewrite (Tl resp) by reflexivity. rewrite ?Ea. reflexivity.
-  - subst tl. rewrite (Tl resp) by reflexivity. rewrite ?Ea. reflexivity.
-Qed.
-
-
-(* PDU.unpack returns an object of the class registered under the header's packet type *)
-Lemma pdu_unpack_type data body h st p t :
-  pdu_split data = Ok (body, h, st) -> pdu_unpack pfuel data = Ok (p, t) -> pdu_type p = h_packet_type h.
-Proof.
-  intros Hs. unfold pdu_unpack. rewrite Hs. cbn [bind]. unfold registry_lookup.
-  destruct (mem (h_packet_type h) c_PDU_registry); cbn [bind]; [|discriminate].
-  repeat match goal with
-  | |- (if ?c then _ else _) = _ -> _ => let E := fresh "E" in destruct c eqn:E
-  end; intro H;
-  repeat match type of H with
-  | (let* _ := ?x in _) = _ => let r := fresh "r" in destruct x as [r|?]; cbn [bind] in H; [try destruct r|discriminate]
-  end; try discriminate;
-  apply Ok_inj in H; inversion H; subst; cbn [pdu_type]; symmetry; apply Z.eqb_eq; assumption.
-Qed.
-
-(* ... and that composition is Seal.process_response, unless the reply is a PDU of another registered type whose decoding fails with
-   an exception that is not a ValueError (Seal.v refuses those outright; the source decodes them first) *)
-Lemma process_response_src_model auth offs sign hdr resp :
-  (forall clear body h st e, unseal unwrap auth offs sign hdr resp = Ok clear -> pdu_split clear = Ok (body, h, st) ->
-     h_packet_type h <> c_PT_RESPONSE -> registry_lookup (h_packet_type h) = Ok (h_packet_type h) ->
-     pdu_unpack pfuel clear = Raise e -> e = ValueError) ->
-  process_response_src auth offs sign hdr resp = (let* r := process_response unwrap auth offs sign hdr resp in Ok (PResponse r)).
-Proof.
-  intro Hyp. unfold process_response_src, process_response.
-  destruct (unseal unwrap auth offs sign hdr resp) as [clear|e] eqn:Eu; cbn [bind]; [|reflexivity].
-  specialize (Hyp clear).
-  destruct (pdu_split clear) as [[[body h] st]|e] eqn:Es; cbn [bind].
-  2:{ unfold pdu_unpack. rewrite Es. reflexivity. }
-  destruct (h_packet_type h =? c_PT_RESPONSE) eqn:Et.
-  - apply Z.eqb_eq in Et. unfold pdu_unpack. rewrite Es. cbn [bind]. rewrite Et. cbn.
-    destruct (response_unpack body h st) as [r|e]; cbn; [|reflexivity].
-    destruct (k_reject_unsealed _ _ _); reflexivity.
-  - assert (Hne : h_packet_type h <> c_PT_RESPONSE) by (apply Z.eqb_neq; exact Et).
-    destruct (registry_lookup (h_packet_type h)) as [pt|e] eqn:Er; cbn [bind].
-    2:{ unfold pdu_unpack. rewrite Es. cbn [bind]. rewrite Er. reflexivity. }
-    assert (pt = h_packet_type h) as ->.
-    { unfold registry_lookup in Er. destruct (mem _ _); [apply Ok_inj in Er; congruence|discriminate]. }
-    cbn [negb]. destruct (pdu_unpack pfuel clear) as [[p t]|e] eqn:Ep; cbn [bind].
-    + pose proof (pdu_unpack_type _ _ _ _ _ _ Es Ep) as Hty. rewrite Hty, Et.
-      destruct (h_packet_type h =? c_PT_BIND_NAK); [reflexivity|].
-      destruct (h_packet_type h =? c_PT_FAULT); reflexivity.
-    + rewrite (Hyp body h st e eq_refl eq_refl Hne Er eq_refl). reflexivity.
+      rewrite Pm, ?Ea. reflexivity.
+  - subst tl. rewrite (Tl resp) by reflexivity. rewrite Pm, ?Ea. reflexivity.
+  - subst tl. rewrite (Tl resp) by reflexivity. rewrite Pm, ?Ea. reflexivity.
+  - subst tl. rewrite (Tl resp) by reflexivity. rewrite Pm, ?Ea. reflexivity.
 Qed.
 
 End Seal.
